@@ -234,6 +234,8 @@ package keeper
 //@   requires forall k bytes :: Validators[k] != None ==> addrOK(2, val(Validators[k]).OperatorAddress) && addrBytes(2, val(Validators[k]).OperatorAddress) == k   // INV_VAL K1
 //@   requires forall k bytes :: LastValidatorPowers[k] != None ==> Validators[k] != None                                                                          // INV_VAL K2
 //@   requires forall k bytes :: Validators[k] != None ==> val(Validators[k]).ConsPower >= 0                                                                       // INV_VAL K3
+//@   requires forall k bytes :: Validators[k] != None ==> val(Validators[k]).ConsensusPubkey != nil && implements(val(val(Validators[k]).ConsensusPubkey).cachedValue, "github.com/cosmos/cosmos-sdk/crypto/types.PubKey")    // INV_VAL K4
+//@   ensures err == nil                                                                                                                                           // C14,C13: update_computation_never_fails_on_consistent_state
 //@   ensures err == nil ==> forall k bytes :: V0[k] != None && val(V0[k]).ConsPower > 0 ==> Validators[k] == V0[k] && LastValidatorPowers[k] == Some(val(V0[k]).ConsPower)   // C13: bonded_validators_recorded_with_their_power
 //@   ensures err == nil ==> forall k bytes :: L0[k] != None && val(V0[k]).ConsPower <= 0 ==> Validators[k] == None && LastValidatorPowers[k] == None                      // C13: removed_validator_gone_by_end_of_block
 //@   ensures err == nil ==> forall k bytes :: LastValidatorPowers[k] != None ==> Validators[k] != None && val(Validators[k]).ConsPower > 0 && LastValidatorPowers[k] == Some(val(Validators[k]).ConsPower)   // C13: last_powers_are_exactly_the_bonded_set
@@ -272,7 +274,14 @@ package keeper
 //@   ensures err == nil ==> LastValidatorPowers == old(LastValidatorPowers)
 //@   ensures err == nil ==> Params != None && old(Params) != None && val(Params).BridgeExecutors == plan.NextExecutors && val(Params).Admin == val(old(Params)).Admin
 //@        && val(Params).MaxValidators == val(old(Params)).MaxValidators && val(Params).HookMaxGas == val(old(Params)).HookMaxGas          // C14: executors_replaced_exactly
-//@   ensures err == nil ==> card(Validators) <= val(Params).MaxValidators                                                                  // C13: cap_respected
+//@   ensures old(Params) != None && addrOK(2, nv.OperatorAddress) && nv.ConsensusPubkey != nil && implements(val(nv.ConsensusPubkey).cachedValue, "github.com/cosmos/cosmos-sdk/crypto/types.PubKey")
+//@        && addrOK(1, val(old(Params)).Admin) && decCoinsValid(val(old(Params)).MinGasPrices) && val(old(Params)).MaxValidators != 0
+//@        && (forall j int :: 0 <= j && j < len(val(old(Params)).FeeWhitelist) ==> addrOK(1, val(old(Params)).FeeWhitelist[j]))
+//@        && (forall j int :: 0 <= j && j < len(plan.NextExecutors) ==> addrOK(1, plan.NextExecutors[j])) ==> err == nil                    // C14: well_formed_plan_always_applies
+//@   ensures err == nil ==> forall k bytes :: LastValidatorPowers[k] != None && V0[k] != None ==> Validators[k] != None
+//@        && val(Validators[k]).ConsensusPubkey == val(V0[k]).ConsensusPubkey                                                             // C14,C13: bonded_validator_is_never_rekeyed
+//@   ensures err == nil ==> forall k bytes :: k != pva && Validators[k] != None && LastValidatorPowers[k] != None ==>
+//@        pkAddress(val(val(Validators[k]).ConsensusPubkey).cachedValue) != pcons                                                         // C14,C13: plan_key_not_shared_with_a_bonded_validator
 //@   walk 0 invariant forall k bytes :: V0[k] == None ==> Validators[k] == None
 //@   walk 0 invariant forall k bytes :: V0[k] != None && $idx(k) < $i ==> Validators[k] != None && val(Validators[k]).ConsPower == 0
 //@        && val(Validators[k]).OperatorAddress == val(V0[k]).OperatorAddress && val(Validators[k]).ConsensusPubkey == val(V0[k]).ConsensusPubkey
